@@ -140,8 +140,7 @@ def s_active(case):
 
 def s_argmax(case, tol=Fr(0)):
     at = s_active(case)
-    mx = max(at.values())
-    return [b for b, v in sorted(at.items()) if mx - v <= tol * (1 + mx)]
+    return [b for b, v in sorted(at.items()) if all(w - v <= tol * (1 + w) for w in at.values())]
 
 
 def _close(a, b, tol):
